@@ -4,6 +4,7 @@
 //!   M  the same with multithread = true, 2 workers
 //!   P  E, then parser::stream on the bytes and Stream::write of the parsed stream
 //!   F  encode_fixed_size_frame on the first block + Frame::write
+//!   X  E, but the stream is written into a user sink that fails half way (three times, at different calls)
 //! Output: `<id> seq=<h1,h2,..> fresh=<h1,h2,..>`: FNV-1a of the bytes of each call when the calls run
 //! in order on one thread, and when each call runs alone on a thread of its own.
 use crate::rng::Rng;
@@ -41,7 +42,7 @@ pub fn gen(seed: u64, n: usize, out: &mut String) {
             let mut a = a0;
             for _ in 0..k {
                 c.win = Some(a.to_bits());
-                let kind = if r.chance(3, 4) { "E" } else { "F" };
+                let kind = match r.below(8) { 0..=4 => "E", 5 => "X", _ => "F" };
                 calls.push(format!("{} {} {} {} {} {} {}", kind, c.encode(), rate, ch, bps, bs, sig::fmt_samples(&s)));
                 a = (a0 + *r.pick(&[1e-6f32, 4e-6, 7.6e-6, 1.2e-5, 1.5e-5, 3.0e-6])).min(1.0);
                 if r.chance(1, 4) { a = a0; }
@@ -61,14 +62,30 @@ pub fn gen(seed: u64, n: usize, out: &mut String) {
             if let Some(a) = prev_alpha { if r.chance(2, 3) { let d = 1 + r.below(40) as u32; c.win = Some(if r.chance(1, 2) { a.wrapping_add(d) } else { a.saturating_sub(d) }); } }
             if c.win.is_none() && r.chance(1, 2) { c.win = Some(f32::to_bits(*r.pick(&[0.0f32, 1e-6, 0.1, 0.25, 0.4, 0.5, 0.99999, 1.0]))); }
             if let Some(a) = c.win { if f32::from_bits(a) <= 1.0 && f32::from_bits(a) >= 0.0 { prev_alpha = Some(a); } else { c.win = prev_alpha; } }
-            let kind = match r.below(8) { 0 | 1 | 2 | 3 => "E", 4 => "M", 5 => "P", _ => "F" };
+            let kind = match r.below(10) { 0 | 1 | 2 | 3 => "E", 4 => "M", 5 => "P", 6 | 7 => "X", _ => "F" };
             calls.push(format!("{} {} {} {} {} {} {}", kind, c.encode(), rate, ch, bps, bs, sig::fmt_samples(&s)));
         }
         writeln!(out, "HIST h{} {}", i, calls.join(" ;; ")).unwrap();
     }
 }
 
+/// X: encode (single thread), then write the stream into a user sink that fails half way.  The call's own
+/// result is not compared; what matters is what it leaves behind for the calls after it.
+fn failing_write(c: &Case) -> String {
+    let mut c2 = Case { cfg: c.cfg.clone(), rate: c.rate, ch: c.ch, bps: c.bps, bs: c.bs, samples: c.samples.clone() };
+    c2.cfg.mt = false;
+    if let Ok(s) = s_enc::encode(&c2) {
+        let mut probe = crate::usersink::UserSink::new(None); probe.record_ops = false;
+        if s.write(&mut probe).is_ok() {
+            let total = probe.ops.len();
+            for k in [total / 2, total * 9 / 10, 3usize] { let mut sink = crate::usersink::UserSink::new(Some(k)); let _ = s.write(&mut sink); }
+        }
+    }
+    "xfail".to_string()
+}
+
 fn do_call(kind: &str, c: &Case) -> String {
+    if kind == "X" { return failing_write(c); }
     let mut c2 = Case { cfg: c.cfg.clone(), rate: c.rate, ch: c.ch, bps: c.bps, bs: c.bs, samples: c.samples.clone() };
     match kind {
         "F" if !c.samples.is_empty() => {
